@@ -69,6 +69,16 @@ def _log(msg):
         sys.stderr.flush()
 
 
+def _opt_suffix():
+    """Run-time generated modules are compiled with compyle's own -O3 in the
+    thorough tier and with VERIF_OPT (set to -O0 by the runner) in the quick
+    tier: compiling is 5-8x faster and the arithmetic is the same IEEE
+    double arithmetic.  The two sets of modules live in separate caches
+    (compyle names a module after its source alone)."""
+    o = os.environ.get('VERIF_OPT', '')
+    return o if o and o != '-O3' else ''
+
+
 def _prune(keep):
     """Delete old work trees / code caches beyond the two most recent."""
     try:
@@ -80,7 +90,7 @@ def _prune(keep):
                      if os.path.basename(e).startswith(prefix)
                      and os.path.isdir(e)),
                     key=lambda p: os.stat(p).st_mtime, reverse=True)
-        for d in ds[3:]:
+        for d in ds[(3 if prefix == 'work-' else 5):]:
             if d not in keep:
                 shutil.rmtree(d, ignore_errors=True)
 
@@ -123,7 +133,7 @@ def ensure_built(verbose=False):
             # development aid: use the work tree as it is (never set by
             # registered commands, which must rebuild from /repo)
             ih = open(os.path.join(wd, '.verif_build_stamp')).read().strip()
-            home = os.path.join(CACHE, 'home-' + ih[:16])
+            home = os.path.join(CACHE, 'home-' + ih[:16] + _opt_suffix())
             os.makedirs(home, exist_ok=True)
             return wd, home
         cmd = ['rsync', '-rc', '--delete',
@@ -157,7 +167,7 @@ def ensure_built(verbose=False):
             with open(stamp, 'w') as f:
                 f.write(want)
         ih = want[:16]
-        home = os.path.join(CACHE, 'home-' + ih)
+        home = os.path.join(CACHE, 'home-' + ih + _opt_suffix())
         os.makedirs(home, exist_ok=True)
         os.utime(home, None)
         os.utime(wd, None)
@@ -224,6 +234,16 @@ def _patch_compyle_lock():
                     self.build()
     write_and_build._verif_patched = True
     ext_module.ExtModule.write_and_build = write_and_build
+
+    orig_extra = ext_module.ExtModule._get_extra_args
+
+    def _get_extra_args(self):
+        ec, el = orig_extra(self)
+        opt = _opt_suffix()
+        if opt:
+            ec = [opt if a == '-O3' else a for a in ec]
+        return ec, el
+    ext_module.ExtModule._get_extra_args = _get_extra_args
 
     # the built module is copied into the cache with shutil.copy while other
     # processes test for its existence without the lock: make it atomic
